@@ -105,6 +105,26 @@ def candidates(rng, sz):
     did += 1
     cands.append(enum(did, [sole("A", "tuple", "{0:>4}", ">4"), sole("B", "named", "{x:03}", "03")], prefix="p"))
     did += 1
+    # payloads that are exclusive references: arms must bind them by reference (nothing may be moved out of `&self`)
+    def mref(ident, kind, lit, ph):
+        v = variant(ident, kind, [field("mutref", "r" if kind == "named" else "")], ts=lit)
+        if ph is not None:
+            v["ph"] = [dict(f=1, spec=ph)]
+            v["vals"] = [["7u8"], ["255u8"]]
+        return v
+    E = enum(did, [mref("FixT", "tuple", None, None), mref("FixN", "named", "fixed", None), mref("IntT", "tuple", "<{0}>", ""),
+                   mref("IntN", "named", "{r:>4}!", ">4"), variant("Plain")], generics="lt")
+    E["std_derives"] = ("Debug",)
+    cands.append(E)
+    did += 1
+    # a type parameter that is Debug but not Display, printed with {:?}: the impl must not demand more than the literal uses
+    def dbg(ident, kind, lit, spec):
+        v = variant(ident, kind, [field("T", "t" if kind == "named" else ""), field("u8", "n" if kind == "named" else "")], ts=lit)
+        v["ph"] = [dict(f=1, spec=spec), dict(f=2, spec="")]
+        v["vals"] = [["DbgOnly(7)", "1u8"], ["DbgOnly(0)", "2u8"]]
+        return v
+    cands.append(enum(did, [dbg("A", "tuple", "{0:?}/{1}", "?"), dbg("B", "named", "{n}={t:#?}", "#?"), variant("Plain")], generics="tydbg"))
+    did += 1
     idents = ["Red", "Green", "Blue", "Cyan"]
     for k in range(sz["interp"] // 3):
         vs = [interp_variant(rng, idents[j], rng.choice(["tuple", "named"])) for j in range(3)]
